@@ -389,6 +389,9 @@ func (e *Exec) readAt(st *State, name string, ft types.Type, idx string) Val {
 			if _, isCh := ft.Underlying().(*types.Chan); isCh {
 				r.Origin = name
 			}
+			if _, isIf := ft.Underlying().(*types.Interface); isIf {
+				r.Origin, r.OriginBase = name, idx
+			}
 			return r
 		}
 		t := e.S.Define("ld", "Int", selT)
@@ -418,6 +421,11 @@ func (e *Exec) readAt(st *State, name string, ft types.Type, idx string) Val {
 					e.prov[t] = p
 				}
 			}
+		}
+		if _, isIf := ft.Underlying().(*types.Interface); isIf {
+			r := vRef(t).withT(ft)
+			r.Origin, r.OriginBase = name, idx
+			return r
 		}
 		return vRef(t).withT(ft)
 	case KStruct:
